@@ -821,10 +821,10 @@ pub fn execute_async(s: &AScenario) -> Result<CaseReport, Failure> {
 
 pub fn check(check: &mut Check) {
   let ctx = check.ctx.clone();
-  let n_threads = ctx.tier.pick(400u64, 20_000u64);
+  let n_threads = ctx.tier.pick(300u64, 20_000u64);
   let out = vcore::drive(&ctx, &check.findings, 3, n_threads, tscenario_strategy, |s| execute_threads(s));
   check.absorb(crate::ENGINE_LOADER, out);
-  let n_async = ctx.tier.pick(20_000u64, 2_000_000u64);
+  let n_async = ctx.tier.pick(12_000u64, 2_000_000u64);
   let out = vcore::drive(&ctx, &check.findings, 4, n_async, ascenario_strategy, |s| execute_async(s));
   check.absorb(crate::ENGINE_ALOADER, out);
   check.require_class("threads:wave_miss", 100);
